@@ -801,7 +801,12 @@ func findSinkType(params *filterParams, parent ast.Node, kv *ast.KeyValueExpr, e
 		}
 
 	case *ast.CompositeLit:
-		switch typ := params.ctx.Types.TypeOf(parent).Underlying().(type) {
+		litType := params.ctx.Types.TypeOf(parent).Underlying()
+		if ptr, ok := litType.(*types.Pointer); ok {
+			// An element of []*T{{...}} with the &T elided: go/types records *T for it.
+			litType = ptr.Elem().Underlying()
+		}
+		switch typ := litType.(type) {
 		case *types.Slice:
 			return typ.Elem()
 		case *types.Array:
